@@ -810,6 +810,18 @@ func (env *SpecEnv) evalNamedCall(name string, x *ast.CallExpr) *Val {
 		dec, enc := fmt.Sprintf("dec_%s%d", name[2:4], w), fmt.Sprintf("enc_%s%d", name[2:4], w)
 		env.eng.codecSyms(dec, enc, w)
 		return &Val{T: intT, S: fmt.Sprintf("(%s %s)", dec, v.S)}
+	case "gmap":
+		// gmap(map, obj, key): value of key in the ghost map `map` of object obj
+		if len(x.Args) != 3 {
+			return env.fail("gmap(map, obj, key)")
+		}
+		id, ok := x.Args[0].(*ast.Ident)
+		if !ok {
+			return env.fail("gmap: the map name must be an identifier")
+		}
+		o, k := arg(1), arg(2)
+		hn, hs := ghostMapHeap(id.Name)
+		return &Val{T: types.NewSlice(types.Typ[types.Uint8]), S: fmt.Sprintf("(select (select %s %s) %s)", env.s.heap(hn, hs), o.S, k.S)}
 	case "gin":
 		// gin(set, obj, elem): elem is in the ghost set `set` of object obj (elements are byte strings)
 		if len(x.Args) != 3 {
@@ -973,6 +985,31 @@ func (env *SpecEnv) applyFunc(f *types.Func, recv *Val, argExprs []ast.Expr) *Va
 	c := env.eng.contractFor(f)
 	if c == nil {
 		return env.fail("function %s is used in a specification but has no contract", funcKey(f))
+	}
+	if c.Function != nil {
+		// a closed-form result: usable anywhere, also under quantifiers
+		var fargs []*Val
+		for _, a := range argExprs {
+			fargs = append(fargs, env.evalGo(a))
+		}
+		if env.err != nil {
+			return &Val{T: boolT, S: "true"}
+		}
+		fnames, _ := env.eng.contractNames(c, f, recv, fargs)
+		fpkg := env.pkg
+		if pp := env.eng.pkgs[c.Pkg]; pp != nil {
+			fpkg = pp.Types
+		} else if f.Pkg() != nil {
+			fpkg = f.Pkg()
+		}
+		sub := &SpecEnv{eng: env.eng, vc: env.vc, s: env.s, old: env.s, names: fnames, pkg: fpkg, quant: env.quant, side: env.side, fr: env.fr}
+		v := sub.eval(c.Function.E)
+		if sub.err != nil {
+			env.err = fmt.Errorf("in contract of %s: %v", c.Key, sub.err)
+			return &Val{T: boolT, S: "true"}
+		}
+		c.Used = true
+		return &Val{T: f.Type().(*types.Signature).Results().At(0).Type(), S: v.S}
 	}
 	if env.quant > 0 {
 		return env.fail("function %s applied under a quantifier (use a pred)", funcKey(f))
